@@ -427,7 +427,7 @@ public:
             v1.resize(vars_.size(), 0);
             v2.resize(o_.vars_.size(), 0);
             if (poly_.dict_.begin()->first == v1
-                || o_.poly_.dict_.begin()->first == v2)
+                && o_.poly_.dict_.begin()->first == v2)
                 return true;
             return false;
         } else if (0 == poly_.dict_.size() && 0 == o_.poly_.dict_.size()) {
